@@ -541,6 +541,11 @@ int main (int argc, char **argv) {
 		rp_print_ord (stdout);
 		return st.violations ? 1 : 0;
 	}
+	if (!strcmp (argv[1], "from") && argc >= 5) {
+		FILE *f = fopen (argv[2], "r");
+		if (!f) { perror (argv[2]); return 2; }
+		return rp_explore_from (f, &h, atol (argv[3]), (unsigned) atol (argv[4]), argc > 5 ? argv[5] : NULL, prop, NULL, 20000) ? 1 : 0;
+	}
 	if (!strcmp (argv[1], "random") && argc >= 5) return run_random (atol (argv[2]), (unsigned) atol (argv[3]), argv[4], argc > 5 ? argv[5] : NULL, prop);
 	return 2;
 }
